@@ -53,7 +53,7 @@ def plan(seed, overrides=None):
         else:
             recipes[f"ldoc{i}"] = {"kind": "value", "v": enc(G.cx(rr))}
         z = G.cx(rr) * rr.choice([1, 10, 0.01, 1, 10, 0.01, 1e-13, 3.7e-12, 1e-9, 1e9])
-        n = G.notation(rr, z)
+        n = G.notation(rr, z, neg_p=0.04)
         if "phase" in n and rr.random() < 0.5:
             import math
             n = {"abs": n["abs"], "phase": n["phase"] * 180 / math.pi}     # meant to be read with degree=True
